@@ -210,7 +210,8 @@ Fixpoint insert_sorted (x : N) (l : list N) : list N :=
   end.
 Definition sort_n (l : list N) : list N := fold_right insert_sorted [] l.
 
-Record sqcase := { sq_len : N; sq_start : N; sq_progs : list (list N); sq_events : list ev }.
+Record sqcase := { sq_len : N; sq_kthread : bool (* SQPOLL ring: [enter] passes to_submit = 0 *);
+                   sq_start : N; sq_progs : list (list N); sq_events : list ev }.
 
 Definition run_sqcase (c : sqcase) : list Z :=
   let '(s, o) := run_steps (init (sq_len c) (sq_start c) (sq_progs c)) (sq_events c) in
@@ -219,4 +220,4 @@ Definition run_sqcase (c : sqcase) : list Z :=
     ++ [(-3)%Z] ++ map nz (sort_n (blocked s))
     ++ [(-5)%Z] ++ map nz (sort_n (panicked s))
     (* what [enter] passes as to_submit afterwards: [unsubmitted_submissions] *)
-    ++ [(-4)%Z; nz (wsub32 (ktail s) (khead s))].
+    ++ [(-4)%Z; if sq_kthread c then 0%Z else nz (wsub32 (ktail s) (khead s))].
